@@ -223,6 +223,8 @@ func (c *Concretiser) bytes0(m M) []byte {
 			return append(pgw.SSLRequest(), c.stuffing()...)
 		}
 		return pgw.SSLRequest()
+	case "GSSENC":
+		return pgw.Untyped([]byte{0x04, 0xd2, 0x16, 0x30}) // 80877104
 	case "Stuffed":
 		return c.stuffing()
 	case "Cancel":
